@@ -9,7 +9,9 @@ import (
 	"regexp"
 	"sort"
 	"strings"
+	"math/rand"
 	"sync"
+	"sync/atomic"
 	"time"
 
 	"golang.org/x/tools/go/packages"
@@ -37,6 +39,8 @@ type Config struct {
 	Workers          int
 	SolverKind       string
 	SolverTimeoutMs  int
+	SampleModels     int
+	Seed             int
 }
 
 type Program struct {
@@ -49,6 +53,7 @@ type Program struct {
 	replCache    sync.Map
 	LoadTime     time.Duration
 	PkgCount     int
+	doneCount    int64
 }
 
 // Load loads package pkgPath (relative to repoDir, e.g. "./xbinary") with harness files overlaid into its directory.
@@ -224,6 +229,7 @@ type Result struct {
 	Funcs        map[string]bool
 	Samples      []string
 	Budget       bool
+	Models       [][]NDValue
 }
 
 type workQueue struct {
@@ -283,6 +289,8 @@ func (p *Program) RunEntry(entry string) *Result {
 	}
 	var mu sync.Mutex
 	var wg sync.WaitGroup
+	rng := rand.New(rand.NewSource(int64(p.Cfg.Seed) + 1))
+	atomic.StoreInt64(&p.doneCount, 0)
 	for w := 0; w < workers; w++ {
 		wg.Add(1)
 		go func() {
@@ -331,6 +339,14 @@ func (p *Program) RunEntry(entry string) *Result {
 				case "inconclusive":
 					if len(res.Inconclusive) < 20 {
 						res.Inconclusive = append(res.Inconclusive, end.Msg)
+					}
+				}
+				if x.model != nil {
+					n := p.Cfg.SampleModels
+					if len(res.Models) < n {
+						res.Models = append(res.Models, x.model)
+					} else {
+						res.Models[rng.Intn(n)] = x.model
 					}
 				}
 				if len(res.Samples) < 6 && end.Kind == "done" && len(x.observed) > 0 {
@@ -388,6 +404,13 @@ func (p *Program) runPath(fn *ssa.Function, prefix []int, s *Solver) (x *Exec, e
 		if r := recover(); r != nil {
 			if pe, ok := r.(pathEnd); ok {
 				end = pe
+				if pe.Kind == "done" && p.Cfg.SampleModels > 0 {
+					i := atomic.AddInt64(&p.doneCount, 1)
+					n := int64(p.Cfg.SampleModels)
+					if i <= n || (i*7919+int64(p.Cfg.Seed))%(i/(3*n)+1) == 0 {
+						x.sampleModel()
+					}
+				}
 				return
 			}
 			if _, ok := r.(goPanicSignal); ok {
